@@ -285,6 +285,11 @@ func (hw *histWorld) step() {
 		if err == nil && !swapToTrusted {
 			hw.receiveMonitor(t, got)
 		}
+		if swapToTrusted && t.sigAll && err != nil {
+			// the same defect whatever makes swapProofs fail after the SIG_ALL pre-swap (melt not PAID, or e.g. a 1-sat
+			// token that cannot cover the fee reserve): the pre-swapped proofs exist only in memory and are dropped
+			b.hint = "C17/swapToTrusted/sigall-proofs-dropped-on-unpaid-melt"
+		}
 		b.setScript(tmint)
 		hw.model.receive(hw, rc, t, swapToTrusted, strip, outcome, got, err)
 		b.pruneTokens()
@@ -444,8 +449,24 @@ func runWalletHist(c *Ctx) {
 	witnessF13(c)
 	witnessF10(c)
 	witnessF16(c)
+	// every history draws from its own fork of the run's PRNG: history h of (seed, tier) can be replayed alone
+	// (VERIF_WH_ONLY=h) without running the ones before it
+	only := -1
+	if v := os.Getenv("VERIF_WH_ONLY"); v != "" {
+		fmt.Sscanf(v, "%d", &only)
+	}
 	for h := 0; h < n; h++ {
+		sub := c.Rng.Fork()
+		if only >= 0 && h != only {
+			continue
+		}
+		saved := c.Rng
+		c.Rng = sub
 		runHistory(c, h)
+		c.Rng = saved
+	}
+	if only >= 0 {
+		return
 	}
 	for k := 0; k < 12; k++ {
 		rotationNoticedBy(c, k)
